@@ -260,6 +260,21 @@ def clone(node):
     return ast.parse(ast.unparse(node)).body[0]
 
 
+def clone_pos(node):
+    """A private copy that keeps line numbers but drops the `_parent` back-links (see clone)."""
+    if isinstance(node, list):
+        return [clone_pos(x) for x in node]
+    if not isinstance(node, ast.AST):
+        return node
+    new = type(node)()
+    for f, v in ast.iter_fields(node):
+        setattr(new, f, clone_pos(v))
+    for a in ('lineno', 'col_offset', 'end_lineno', 'end_col_offset'):
+        if hasattr(node, a):
+            setattr(new, a, getattr(node, a))
+    return new
+
+
 def unparse(node):
     try:
         return ast.unparse(node)
@@ -341,3 +356,68 @@ def early_exits(loop, kinds=(ast.Continue, ast.Break, ast.Return)):
             if p is loop or isinstance(n, ast.Return):
                 out.append(n)
     return out
+
+
+def single_defs(fn):
+    """{name: value} for the local names of `fn` that are stored exactly once, by a plain `name = value` (or `(name := value)`)
+    outside any loop -- such a name is an abbreviation and may be replaced by its value wherever it is read afterwards."""
+    stores, vals = {}, {}
+    def visit(node, in_loop):
+        for ch in ast.iter_child_nodes(node):
+            if isinstance(ch, (ast.FunctionDef, ast.AsyncFunctionDef, ast.Lambda, ast.ClassDef)):
+                continue
+            if isinstance(ch, ast.Name) and isinstance(ch.ctx, (ast.Store, ast.Del)):
+                stores[ch.id] = stores.get(ch.id, 0) + (1 if isinstance(ch.ctx, ast.Store) else 0)
+            if isinstance(ch, ast.Assign) and len(ch.targets) == 1 and isinstance(ch.targets[0], ast.Name) and not in_loop:
+                vals.setdefault(ch.targets[0].id, []).append(ch.value)
+            if isinstance(ch, ast.NamedExpr) and isinstance(ch.target, ast.Name) and not in_loop:
+                vals.setdefault(ch.target.id, []).append(ch.value)
+            visit(ch, in_loop or isinstance(ch, (ast.For, ast.While, ast.ListComp, ast.GeneratorExp, ast.SetComp, ast.DictComp)))
+    visit(fn, False)
+    params = {a.arg for a in fn.args.args + fn.args.kwonlyargs} if hasattr(fn, 'args') else set()
+    return {k: v[0] for k, v in vals.items() if len(v) == 1 and stores.get(k) == 1 and k not in params}
+
+
+def expand_names(node, defs, depth=8):
+    """Copy of `node` with the names of `defs` (see single_defs) replaced by their values, transitively; `(n := v)` -> v."""
+    class _E(ast.NodeTransformer):
+        def __init__(self, d):
+            self.d = d
+
+        def visit_NamedExpr(self, n):
+            return self.visit(clone(n.value))
+
+        def visit_Name(self, n):
+            if isinstance(n.ctx, ast.Load) and n.id in defs and self.d > 0:
+                return _E(self.d - 1).visit(clone(defs[n.id]))
+            return n
+    return _E(depth).visit(clone(node))
+
+
+def exit_to_else(stmts):
+    """In place: `if c: B` with B ending in return / raise, followed by the rest R of the block  ->  `if c: B else: R`  (the statements
+    after an arm that always leaves run exactly when the test is false).  Applied recursively; parent links are kept."""
+    def leaves(b):
+        if not b:
+            return False
+        l = b[-1]
+        if isinstance(l, (ast.Return, ast.Raise)):
+            return True
+        if isinstance(l, ast.If):
+            return leaves(l.body) and leaves(l.orelse)
+        return False
+    for i, st in enumerate(stmts):
+        for f in ('body', 'orelse', 'finalbody'):
+            sub = getattr(st, f, None)
+            if isinstance(sub, list) and sub and isinstance(sub[0], ast.stmt) and not isinstance(st, (ast.FunctionDef, ast.ClassDef)):
+                exit_to_else(sub)
+        if isinstance(st, ast.If) and not st.orelse and leaves(st.body) and i + 1 < len(stmts):
+            rest = stmts[i + 1:]
+            del stmts[i + 1:]
+            st.orelse = rest
+            for r in rest:
+                r._parent = st
+            exit_to_else(st.orelse)
+            break
+    return stmts
+
